@@ -19,6 +19,7 @@ EXPLANATION = (
     "(LEX-SAFE) wherever source text reaches the output verbatim, its alphabet is safe at that position: string payloads "
     "inside a Lua short string, identifiers used as bare field / global names versus Lua's reserved words, variant names "
     "and numbers; (NO-EXPR-STATEMENT) ops whose value is unused are dropped and calls are always bound to a local."
+    " (CTX, GUARD, LOOP-LABEL) `break` / `goto` are emitted only where legal: the checker's inside_loop flag is true exactly for a loop's body and reset by function literals, and the lowering hands the body the label that the loop itself writes."
 )
 UNDECIDED = ("Lua's resource limits (200 locals per function, 60 upvalues, constant table size, nesting depth): they depend on "
              "program size and no template-level rule bounds them.")
